@@ -27,7 +27,7 @@ REL_LABEL = {"Generation": "wasGeneratedBy", "Usage": "used", "Communication": "
              "Invalidation": "wasInvalidatedBy", "Derivation": "wasDerivedFrom", "Attribution": "wasAttributedTo",
              "Association": "wasAssociatedWith", "Delegation": "actedOnBehalfOf", "Influence": "wasInfluencedBy", "Alternate": "alternateOf",
              "Specialization": "specializationOf", "Mention": "mentionOf", "Membership": "hadMember"}
-DIRECTIONS = ["BT", "TB", "LR", "RL", "sideways"]
+DIRECTIONS = ["BT", "TB", "LR", "RL", "sideways", "", "T", "lr", None]    # everything but the four is invalid and means the default
 ALL_OPTS = [dict(show_nary=a, use_labels=b, show_element_attributes=c, show_relation_attributes=d, direction=e)
             for a in (True, False) for b in (True, False) for c in (True, False) for d in (True, False) for e in DIRECTIONS]
 
@@ -155,7 +155,7 @@ def check_render(doc, opt, ctx):
     problems = []
     try:
         # the options are given by keyword, in the documented positional order, or mixed (seeded by the options themselves)
-        how = (opt["show_nary"] + 2 * opt["use_labels"] + 4 * opt["show_element_attributes"] + len(opt["direction"])) % 3
+        how = (opt["show_nary"] + 2 * opt["use_labels"] + 4 * opt["show_element_attributes"] + len(str(opt["direction"]))) % 3
         if how == 0:
             dot = prov_to_dot(doc, **opt)
         elif how == 1:
